@@ -38,18 +38,25 @@ TEXT = {"ext": {"ok": "e"}, "title": {"ok": "abc"}, "qty": {"ok": "5", "bad": "x
 ATTR = {"id": {"ok": "7", "bad": "x"}, "flag": {"ok": "true", "bad": "maybe"}, "bogus": {"ok": "1"}}
 
 
-def render(nodes, prefix="t", default_ns=False, root_attrs=""):
-    """Flat node list (document order, paths) -> XML text."""
+def render(nodes, prefix="t", default_ns=False, root_attrs="", inner_default=False):
+    """Flat node list (document order, paths) -> XML text.  inner_default: the root uses the prefix, every child
+    of the root REDECLARES the namespace as default namespace and its subtree is written without prefixes."""
     out, stack = [], []
     pfx = "" if default_ns else prefix + ":"
     for i, n in enumerate(nodes):
         depth = len(n["path"])
         while len(stack) > depth:
             out.append(f"</{stack.pop()}>")
-        tag = {"ext": "x:known", "unk": "x:unk"}.get(n["name"]) or pfx + n["name"]
+        tag = {"ext": "x:known", "unk": "x:unk"}.get(n["name"]) or \
+            (n["name"] if (inner_default and depth >= 1) else pfx + n["name"])
         at = "".join(f' {a}="{ATTR[a][v]}"' for a, v in sorted(map(tuple, n["attrs"])))
         if depth == 0:
-            at = (f' xmlns="{T}"' if default_ns else f' xmlns:{prefix}="{T}"') + f' xmlns:x="{X}"' + root_attrs + at
+            at = (f' xmlns="{T}"' if default_ns else f' xmlns:{prefix}="{T}"') + \
+                ("" if inner_default else f' xmlns:x="{X}"') + root_attrs + at
+        elif depth == 1 and inner_default:
+            at = f' xmlns="{T}"' + at
+        elif inner_default and n["name"] in ("ext", "unk"):
+            at = f' xmlns:x="{X}"' + at         # declared on the element itself
         out.append(f"<{tag}{at}>")
         stack.append(tag)
         if n["text"] == "stray":
